@@ -91,7 +91,7 @@ def main():
         ],
         "checks": checks,
         "not_applicable": na,
-        "notes": "Static analysis only: no check runs hannibal code. Five genuine defects were repaired with fix: commits in /repo (be6a7a3 C18, 73218fd C08, ec49b89 C14, 69d279d C07, 670d14c C15), recorded in known_findings.txt; the rules that found them stay armed.",
+        "notes": "Static analysis only: no check runs hannibal code. Eight genuine defects were repaired with seven fix: commits in /repo (be6a7a3 C18, 73218fd C08, ec49b89 C14, 69d279d C07, 670d14c C15, f7b3f78 C14/C04, 2ad16a0 C17/C18), recorded in known_findings.txt; the rules that found them stay armed. Clauses that quantify over runtime quantities are listed as not decided per property in DESIGN.md section 6 / 11.",
     }
     if os.path.isdir(os.path.join(V, "witness")):
         m["engines"].append({"name": "witness", "path": "witness/", "serves_properties": ["C19"], "kind_free_text": "compile-fail witnesses with compiling twins, judged by rustc's JSON diagnostics"})
